@@ -20,7 +20,7 @@ import numpy as np
 from harness import common, gen
 from harness.props import c03
 
-MODULES = ['CirqVerif.Props.C08']
+MODULES = ['CirqVerif.Props.C08', 'CirqVerif.Props.C08b']
 
 
 def mat(out):
@@ -62,6 +62,7 @@ def run(ctx: common.Run):
     check_powers(ctx, cirq, cirq_google, cirq_ionq, n)
     check_controlled(ctx, cirq, n * 6)
     check_phase_by(ctx, cirq, n * 3)
+    check_phase_by_closed_forms(ctx, cirq, n)
     check_predicates(ctx, cirq, n * 8)
     check_equality_pool(ctx, cirq)
 
@@ -315,6 +316,27 @@ def check_phase_by(ctx, cirq, n):
             ctx.report_witness('phase_by', 'phase_by is not conjugation by the Z rotation (up to global phase)',
                                {'lines': [{'gate': g, 'phase_turns': p, 'qubit_index': q}], 'impl_out': [repr(np.round(got, 6).tolist())],
                                 'spec_out': [repr(np.round(want, 6).tolist())], 'theorem_or_correspondence': 'phase_by_conj (T2)'})
+
+
+def check_phase_by_closed_forms(ctx, cirq, n):
+    """the gates whose `phase_by` has a closed form return it (Props/C08b proves the closed forms are the conjugation)"""
+    rng = ctx.substream('phase_by_forms')
+    for _ in range(n):
+        t, p, s = float(gen.rand_exponent(rng)), float(rng.uniform(-1, 1)), float(gen.rand_shift(rng))
+        tau = float(rng.choice([0.25, -0.125, 0.5, 0.1, rng.uniform(-1, 1)]))
+        x, z, a = rng.uniform(-1, 1), rng.uniform(-1, 1), rng.uniform(-1, 1)
+        cases = [
+            ('C08_phase_by_phasedx', cirq.PhasedXPowGate(exponent=t, phase_exponent=p, global_shift=s), cirq.PhasedXPowGate(exponent=t, phase_exponent=p + 2 * tau, global_shift=s)),
+            ('C08_phase_by_phasedxz', cirq.PhasedXZGate(x_exponent=x, z_exponent=z, axis_phase_exponent=a), cirq.PhasedXZGate(x_exponent=x, z_exponent=z, axis_phase_exponent=a + 2 * tau)),
+            ('C08_phase_by_z', cirq.ZPowGate(exponent=t, global_shift=s), cirq.ZPowGate(exponent=t, global_shift=s)),
+        ]
+        for rule, g, want in cases:
+            got = cirq.phase_by(g, tau, 0)
+            ctx.count('check', 'phase_by:closed-form')
+            ctx.case(['phase_by_form', rule, repr(g), tau], True)
+            if type(got) is not type(want) or not np.allclose(cirq.unitary(got), cirq.unitary(want), atol=1e-8):
+                ctx.report_witness(f'phase_by:form:{rule}', 'phase_by does not return the closed form proved to be the conjugation by the Z rotation',
+                                   {'lines': [{'gate': repr(g), 'phase_turns': tau}], 'impl_out': [repr(got)], 'spec_out': [repr(want)], 'theorem_or_correspondence': rule})
 
 
 # ------------------------------------------------------------------------------ predicates
